@@ -1,6 +1,10 @@
 """C03 cases: division and remainder."""
 import random
 from .common import *
+
+# other public routes to this property's operations (check.py step 2d): the neighbour generator's requests whose
+# operation matches are part of this run, answered by the neighbour's harness bin
+NEIGHBOURS = {"C17": r"(div|rem)_", "C18": r"nt_((checked_)?(div|rem)|mod_floor|next_multiple_of|prev_multiple_of|is_multiple_of|divides)"}
 from . import widthsweep as _ws
 
 HARNESS_BINS_THOROUGH = ["widths"]
